@@ -42,22 +42,15 @@ RoundTrip == \A c \in RangeOf(CtxOf(g)) : Ok(c, s, Model(c, s, 102))
 \* ... and with the range as found it fails exactly on the strings where a hex-escaped byte is
 \* directly followed by one of c d e f C D E F (the extent of the defect, both directions)
 CssAsFoundExtent == g = "css" => \A c \in CssCtx : (Ok(c, s, Model(c, s, 98)) <=> ~HexAfterEsc(s))
-\* the decoders never fail on what the escapers emit
-NoDecoderFailure == \A c \in RangeOf(CtxOf(g)) \ UrlCtx : ~IsFail(Decode(c, Model(c, s, 102)))
 \* showInURL's unescape(escape(s)) is the identity
 UrlPreIdentity == g = "url" => UrlPre(s) = s
 
 (* ---------- case export ---------- *)
-\* (zero-argument definitions: TLC evaluates each once)
+\* (every large value is bound by a LET inside the one expression that uses it: TLC evaluates a
+\*  LET-bound value once, but re-evaluates a top-level definition at each reference made while
+\*  the ASSUME below is being evaluated)
 Strs(gr) == {Flatten(f) : f \in SeqsUpTo(Tokens(gr), GenLen)}
-HtmlS == SetToSeq(Strs("html"))
-JsS   == SetToSeq(Strs("js"))
-CssS  == SetToSeq(Strs("css"))
-UrlS  == SetToSeq(Strs("url"))
-HtmlCases == [j \in 1..Len(HtmlS) |-> [s |-> HtmlS[j], cx |-> CtxOf("html")]]
-JsCases   == [j \in 1..Len(JsS)   |-> [s |-> JsS[j],   cx |-> CtxOf("js")]]
-CssCases  == [j \in 1..Len(CssS)  |-> [s |-> CssS[j],  cx |-> CtxOf("css")]]
-UrlCases  == [j \in 1..Len(UrlS)  |-> [s |-> UrlS[j],  cx |-> CtxOf("url")]]
+GroupCases(gr) == LET S == SetToSeq(Strs(gr)) IN [j \in 1..Len(S) |-> [s |-> S[j], cx |-> CtxOf(gr)]]
 Ctl == IF AllCtl THEN 0..31 ELSE {0, 8, 9, 10, 11, 12, 13, 27, 31}
 \* bytes some escaper or some decoder treats specially
 EscRelevant == Ctl \cup {32, 34, 35, 37, 38, 39, 40, 41, 43, 47, 58, 59, 60, 61, 62, 63, 92, 96, 123, 125, 127}
@@ -65,9 +58,8 @@ NonAsciiSucc == { <<195,169>>, <<194,128>>, <<226,128,168>>, <<226,128,169>>, <<
                   <<240,159,152,128>>, <<255>>, <<128>> }
 PairSet == {<<c>> : c \in 0..255} \cup {<<c, d>> : c \in EscRelevant, d \in 0..127}
            \cup {<<c>> \o t : c \in EscRelevant, t \in NonAsciiSucc}
-PairS == SetToSeq(PairSet)
-PairCases == [j \in 1..Len(PairS) |-> [s |-> PairS[j], cx |-> <<>>]]                          \* cx empty = every context
-Raw == HtmlCases \o JsCases \o CssCases \o UrlCases \o PairCases
-Cases == [i \in 1..Len(Raw) |-> [id |-> i, s |-> Raw[i].s, cx |-> Raw[i].cx]]
+PairCases == LET S == SetToSeq(PairSet) IN [j \in 1..Len(S) |-> [s |-> S[j], cx |-> <<>>]]   \* cx empty = every context
+Cases == LET R == GroupCases("html") \o GroupCases("js") \o GroupCases("css") \o GroupCases("url") \o PairCases
+         IN [i \in 1..Len(R) |-> [id |-> i, s |-> R[i].s, cx |-> R[i].cx]]
 ASSUME ndJsonSerialize("cases.ndjson", Cases)
 =============================================================================
